@@ -16,6 +16,7 @@
 
 #include "algo_common.hpp"
 
+#ifdef FAMILY_EXEC
 template <long D, bool Per>
 std::string run_exec(const Cmd& c){
     using Conf = TbfSpacialConfiguration<double, D>;
@@ -49,6 +50,8 @@ std::string run_exec(const Cmd& c){
     return out;
 }
 
+#endif // FAMILY_EXEC
+#ifdef FAMILY_CNT
 // ---- interaction counters (C18): one wrapped kernel copy per mask, merged with Reduce in both orders ----
 //   execcnt d per H B mode stop nsplit m_1..m_nsplit N nums
 // output: dump || trace || K counters per copy || F merged forward || B merged backward || R values
@@ -91,6 +94,8 @@ std::string run_exec_cnt(const Cmd& c){
     return out;
 }
 
+#endif // FAMILY_CNT
+#ifdef FAMILY_PER
 // ---- periodic four-step sequence with the top tree ----
 //   execper d H B mode k stop N nums...
 // output: dump || trace || R || C || I lo hi nbrep
@@ -141,6 +146,8 @@ std::string run_exec_per(const Cmd& c){
     return out;
 }
 
+#endif // FAMILY_PER
+#ifdef FAMILY_TSM
 // ---- target/source variant ----
 template <class Groups, class PGroups>
 std::string dump_parts(long H, Groups&& cellGroupsAt, PGroups&& pgroups){
@@ -215,8 +222,10 @@ std::string run_exec_tsm(const Cmd& c){
     return out;
 }
 
+#endif // FAMILY_TSM
 int main(int argc, char** argv){
     return run_commands(argc, argv, [](const Cmd& c) -> std::string {
+#ifdef FAMILY_PER
         if(c.tok[0] == "execper"){
             switch(c.L(1)){
             case 1: return run_exec_per<1>(c);
@@ -225,7 +234,9 @@ int main(int argc, char** argv){
             }
             return "?dim";
         }
+#endif
         const long d = c.L(1); const bool per = c.L(2) != 0;
+#ifdef FAMILY_CNT
         if(c.tok[0] == "execcnt"){
             switch(d*2 + (per?1:0)){
             case 2: return run_exec_cnt<1,false>(c);
@@ -235,6 +246,8 @@ int main(int argc, char** argv){
             }
             return "?dim";
         }
+#endif
+#ifdef FAMILY_TSM
         if(c.tok[0] == "exectsm"){
             switch(d*2 + (per?1:0)){
             case 2: return run_exec_tsm<1,false>(c);
@@ -245,6 +258,8 @@ int main(int argc, char** argv){
             }
             return "?dim";
         }
+#endif
+#ifdef FAMILY_EXEC
         if(c.tok[0] != "exec" && c.tok[0] != "execrb") return "?unknown";
         switch(d*2 + (per?1:0)){
         case 2: return run_exec<1,false>(c);
@@ -256,6 +271,8 @@ int main(int argc, char** argv){
         case 8: return run_exec<4,false>(c);
         case 9: return run_exec<4,true>(c);
         }
+#endif
+        (void)d; (void)per;
         return "?dim";
     });
 }
